@@ -451,7 +451,7 @@ let sql (lines : string list) =
             go rest'
           | "SQLCLOSE" -> let h = next c in Hashtbl.remove dbs h; pr "SQLCLOSE %s OK\n" h; go rest
           | "SQLPROBE" -> let id = next c in pr "SQLPROBE %s RELEASED\n" id; go rest
-          | "SQLCONC" | "SQLCHURN" | "DOPEN" | "DQUERY" | "DCLOSE" -> go rest
+          | "SQLCONC" | "SQLCHURN" | "DOPEN" | "DQUERY" | "DCLOSE" | "RELPATHS" -> go rest
           | t -> failwith ("sql: bad line: " ^ l))) in
   go lines
 
